@@ -46,7 +46,7 @@ def required_cells(tier):
     cells += ["chain-in-dead-parent:plain", "chain-in-dead-parent:with-elif", "chain-in-dead-parent:with-else"]
     cells += ["depth:1", "depth:2", "depth:3+", "define-in-dead-group", "define-in-live-group", "undef-live",
               "elif-after-taken-branch", "directive-continuation", "empty-group", "class:enum", "class:random",
-              "class:stress", "table-compared", "via-cli", "non-utf8-bytes", "block-comment-in-directive"]
+              "class:stress", "table-compared", "via-cli", "non-utf8-bytes", "block-comment-in-directive", "two-platforms"]
     return cells
 
 
@@ -163,9 +163,22 @@ def run_case(ctx, workdir, text, defines, r, cls, check_table=True, case=None):
     witness = {"text": text, "defines": list(defines)}
     full_input = dict(case or {}, text=text, defines=list(defines))
     problems = []
+    # a second platform with its own -D assignment is analysed in the same run (platforms must not interact)
+    defines2 = case.get("defines2") if case else None
+    exp2 = None
+    if defines2 is not None:
+        g2 = gcc.preprocess(path, defines=defines2)
+        if g2["ok"]:
+            exp2, _ = cprog.expected_lines(r, g2["markers"])
+            cells.add("two-platforms")
+        else:
+            defines2 = None
     try:
         with hooks.monitor() as ev:
-            state, _ = cbi.run_find(workdir, {"p": [cbi.entry(path, defines)]})
+            conf = {"p": [cbi.entry(path, defines)]}
+            if defines2 is not None:
+                conf = {"q": [cbi.entry(path, defines2)], "p": [cbi.entry(path, defines)]}
+            state, _ = cbi.run_find(workdir, conf)
             lines, dup = cbi.per_line(state, path)
     except Exception as e:
         tb = traceback.extract_tb(e.__traceback__)
@@ -179,11 +192,17 @@ def run_case(ctx, workdir, text, defines, r, cls, check_table=True, case=None):
     obs = {ln for ln, ps in lines.items() if "p" in ps}
     if obs != exp:
         problems.append({"kind": "attribution", "missing": sorted(exp - obs)[:20], "extra": sorted(obs - exp)[:20]})
+    if exp2 is not None:
+        obs2 = {ln for ln, ps in lines.items() if "q" in ps}
+        if obs2 != exp2:
+            problems.append({"kind": "attribution-second-platform", "defines": defines2, "missing": sorted(exp2 - obs2)[:20], "extra": sorted(obs2 - exp2)[:20]})
     if dup:
         problems.append({"kind": "line-counted-twice", "lines": dup[:10]})
     # trace obligation: #define/#undef evaluated exactly at live sites, in source order
     want = [(it["op"], it["lines"][0]) for it in r.items if it["kind"] == "def" and it["lines"][0] in exp]
-    got = [("define" if e[1] == "DefineNode" else "undef", e[3]) for e in ev.events
+    # only the evaluations of the last translation unit (platform "p"): those after the last top-level associate
+    last_assoc = max([i for i, e in enumerate(ev.events) if e[0] == "assoc" and e[1] == 0] or [0])
+    got = [("define" if e[1] == "DefineNode" else "undef", e[3]) for e in ev.events[last_assoc:]
            if e[0] == "eval" and e[1] in ("DefineNode", "UndefNode")]
     if want != got:
         problems.append({"kind": "define-undef-trace", "expected": want[:30], "observed": got[:30]})
@@ -288,12 +307,14 @@ def run_shard(ctx):
     for i in range(b["random"]):
         ast = cprog.rand_program(rng, max_lines=rng.choice([10, 25, 60]), max_depth=rng.choice([2, 4, 8]))
         defines = cprog.rand_defines(rng)
+        defines_b = cprog.rand_defines(rng)
         style_roll = rng.random()
         srng_seed = rng.random()
         if not ctx.mine(i):
             continue
         style = {"cont": 0.15, "comment": 0.15, "indent": 0.1} if style_roll < 0.5 else None
-        case = {"ast": ast, "style": style, "sseed": srng_seed, "cli": (i % 50 == ctx.shard), "latin1": (i % 9 == 4)}
+        case = {"ast": ast, "style": style, "sseed": srng_seed, "cli": (i % 50 == ctx.shard), "latin1": (i % 9 == 4),
+                "defines2": defines_b if i % 2 == 0 else None}
         r = render_case(case)
         if r.n_chains == 0:
             continue
